@@ -25,7 +25,10 @@ def run(ctx):
             # an exact zero (and an exact power of two) in a radial Box-Muller slot
             n = len(s["case"]["edges"]); dl = s["case"]["D"] * s["routing"]["L"]
             j = rng.randrange((dl + dl % 2) // 2)
-            s["xs"] = list(s["xs"]); s["xs"][2 * n - 1 + 2 * j] = rng.choice([0.0, 0.0, 2.0 ** -1074]); s["kind"] = "zero_radial"
+            val = rng.choice([0.0, 0.0, 2.0 ** -1074, 1.0, 1.0])
+            # (a radius coordinate of exactly 1 gives the radius 0: both Gaussians of the pair vanish whatever the angle is - the angle
+            # coordinate is still that pair's second coordinate, and the following pairs keep their places)
+            s["xs"] = list(s["xs"]); s["xs"][2 * n - 1 + 2 * j] = val; s["kind"] = "one_radial" if val == 1.0 else "zero_radial"
         # coordinates beyond get_dimension() are ignored, whatever they are (NaN, out of range, ...)
         s["xs_long"] = s["xs"] + [rng.choice([rng.random(), float("nan"), 2.5, -1.0, float("inf")]) for _ in range(3)]
         s["req"] = S.sample_request(s["case"], s["routing"], s["table"], s["xs_long"], debug=False, meta=True)
@@ -100,11 +103,30 @@ def run(ctx):
         if lo.get("status") == "ok" and sh.get("status") != "panic":
             ctx.violation(f"narrow signature: a point with only {d-1} coordinates is accepted although get_dimension() = {d} (fewer coordinates are read than the dimension says)",
                           req, observed=sh.get("status"))
+    # V = 0 exactly (no masses, all momenta zero), with and without metadata: the Gaussian coordinates are read all the same - a point one
+    # coordinate short is rejected, the tracked reads (where the tracking op reports them) cover all get_dimension() coordinates
+    zs = S.generate(ctx, 4 if ctx.quick else 16, 1, max_e=5, max_loops=3, routings_per_graph=1, names=["triangle", "sunrise", "bubble", "box"],
+                    kinds=("uniform",), scales=(0,), mass_mode="none")
+    zreq, zinfo = [], []
+    for s in zs:
+        c = s["case"]; dz = 2 * len(c["edges"]) - 1 + c["D"] * s["routing"]["L"] + (c["D"] * s["routing"]["L"]) % 2
+        for meta in (False, True):
+            base = S.sample_request(c, s["routing"], s["table"], s["xs"], debug=False, meta=meta)
+            zreq.append(base); zinfo.append((s, dz, meta, "exact"))
+            zreq.append(dict(base, x=base["x"][: dz - 1])); zinfo.append((s, dz, meta, "short"))
+    for rq, a, (s, dz, meta, what) in zip(zreq, run_harness(zreq), zinfo):
+        ctx.case(["V=0", rq["x"], meta, what], nontrivial=True); ctx.count(f"V=0.{what}.{a.get('status')}")
+        small = dict(S.small_req(s), x=rq["x"], meta=meta)
+        if what == "exact" and a.get("status") == "panic":
+            ctx.violation(f"V = 0 sample (return_metadata={meta}) panicked on a point of exactly get_dimension() = {dz} coordinates", small, observed=a)
+        if what == "short" and a.get("status") != "panic":
+            ctx.violation(f"V = 0 sample (return_metadata={meta}): a point with only {dz-1} of get_dimension() = {dz} coordinates is accepted "
+                          f"(the Gaussian coordinates were not read)", small, observed=a.get("status"))
     # every coordinate influences the result (perturbation on the f64 code), none beyond the dimension does
     preqs, pinfo = [], []
     for si, (s, dim) in enumerate(zip(ss[: (8 if ctx.quick else 40)], dims)):
         a = s["impl"]
-        if s.get("kind") == "zero_xi":
+        if any(t in (s.get("kind") or "") for t in ("zero_xi", "one_radial")):
             continue    # degenerate base point: every later parameter is 0 * (...), so later coordinates cannot show their influence here
         if a.get("status") != "ok" or not SC.finite([a["k"], a["u"], a["v"], a["jac"]]) or b2f(a["v"]) <= 0:
             continue
